@@ -131,7 +131,8 @@ def derivsSeq (U : UserModel n m p K E) (st : U.State) (ks : List (Fin p)) :
 
 /-- assemble the Jacobian from the blocks: entry `(i + c·n, k)` is entry `(i, c)` of block `k` -/
 def assembleJac (blocks : Fin p → Mat n s K) : Mat (n * s) p K :=
-  Mat.ofFn fun q k => (blocks k).vec[q]
+  let bs : Vector (Mat n s K) p := Vector.ofFn blocks   -- every block is computed once
+  Mat.ofFn fun q k => bs[k].vecGet q
 
 /-- look a block up in the list of computed derivative matrices -/
 def blockOf (w : Option (Vector K n)) (c : Cache n m s K) (ds : List (Fin p × Mat n m K))
